@@ -6,6 +6,7 @@ package snaps
 import (
 	"fmt"
 	"os"
+	"path/filepath"
 	"strings"
 	"testing"
 
@@ -22,6 +23,8 @@ type c02Case struct {
 	UpdOpt *bool   `json:"update_option"` // nil or false; true only together with CI (on CI nothing is written whatever the option says)
 	Color  bool    `json:"color"`
 	// texts as the harness computed them (informational for snap/ssnap/yaml; empty for json)
+	// Between: presentation change of the stored multi-entry file between the two processes (see c01Case.Between)
+	Between string `json:"file_represented_between,omitempty"`
 	A BS `json:"formatted_stored,omitempty"`
 	B BS `json:"formatted_received,omitempty"`
 }
@@ -47,7 +50,7 @@ func genReadOnlyMode(t *rapid.T) (Mode, *bool) {
 	case 3:
 		return Mode{Update: "clean"}, nil
 	case 4:
-		return Mode{Update: rapid.SampledFrom([]string{"1", "TRUE", "false", "yes", "True", "t", "true "}).Draw(t, "other")}, nil
+		return Mode{Update: rapid.SampledFrom([]string{"1", "TRUE", "false", "yes", "True", "t", "true ", "0", "FALSE", "f"}).Draw(t, "other")}, nil
 	default:
 		return Mode{Update: "true"}, boolp(false)
 	}
@@ -131,6 +134,7 @@ func genC02Pair(t *rapid.T, col *collector, k1 bool) (c02Case, bool) {
 		c.Cfg.Filename, c.Cfg.PkgLevel = "", true // package-level functions (ignored when an Update option is set)
 	}
 	c.Mode, c.UpdOpt = genReadOnlyMode(t)
+	c.Between = rapid.SampledFrom([]string{"", "", "", "", "no_final_newline", "crlf"}).Draw(t, "between")
 	api := rapid.SampledFrom([]string{"snap", "snap", "snap", "ssnap", "json", "sjson", "yaml"}).Draw(t, "api")
 	if k1 {
 		api = rapid.SampledFrom([]string{"snap", "yaml"}).Draw(t, "api")
@@ -331,6 +335,9 @@ func checkC02(c c02Case) error {
 	}
 
 	// process 2: receive a different value, updating not enabled
+	if !c.Stored.standalone() {
+		representFile(filepath.Join(root, c.Cfg.multiPath()), c.Between)
+	}
 	colors.NOCOLOR = !c.Color
 	newProcess(c.Mode)
 	spec := c.Cfg
@@ -371,6 +378,9 @@ func classifyC02(c c02Case) ([]string, bool) {
 		cls = append(cls, "mode_other_string")
 	default:
 		cls = append(cls, "mode_default")
+	}
+	if c.Between != "" && !c.Stored.standalone() {
+		cls = append(cls, "file_represented_"+c.Between)
 	}
 	a, b := string(c.A), string(c.B)
 	nt := false
